@@ -57,6 +57,196 @@ type frame struct {
 	panicking bool
 	panicVal  interface{}
 	loopCnt   map[*ssa.BasicBlock]int
+	pendings  []*pendingIter
+}
+
+// pendingIter: a map-range iteration whose entry is present only under a symbolic guard and
+// whose body is being executed speculatively (no fork unless the body turns out to matter).
+type pendingIter struct {
+	fr      *frame
+	in      *ssa.Next
+	guard   *T
+	locals  []Value
+	prev    *ssa.BasicBlock
+	ndefers int
+	objBase int
+	depth   int
+}
+
+type rollback struct{ p *pendingIter }
+
+func (fr *frame) pendingFor(in *ssa.Next) *pendingIter {
+	for _, p := range fr.pendings {
+		if p.in == in {
+			return p
+		}
+	}
+	return nil
+}
+
+func (e *Exec) startPending(fr *frame, in *ssa.Next, g *T) {
+	p := &pendingIter{fr: fr, in: in, guard: g, locals: append([]Value(nil), fr.locals...), prev: fr.prev, ndefers: len(fr.defers), objBase: e.objCtr, depth: e.depth}
+	fr.pendings = append(fr.pendings, p)
+	e.pendingAll = append(e.pendingAll, p)
+}
+
+func (e *Exec) dropPending(p *pendingIter) {
+	fr := p.fr
+	for i, q := range fr.pendings {
+		if q == p {
+			fr.pendings = append(fr.pendings[:i:i], fr.pendings[i+1:]...)
+			break
+		}
+	}
+	for i, q := range e.pendingAll {
+		if q == p {
+			e.pendingAll = append(e.pendingAll[:i:i], e.pendingAll[i+1:]...)
+			break
+		}
+	}
+}
+
+// resolvePending decides the presence of a speculated entry: present -> commit, absent -> roll back.
+func (e *Exec) resolvePending(p *pendingIter) {
+	// drop first so that the Branch below (a path-condition update) is not seen as an effect again
+	e.dropPending(p)
+	if e.Branch(p.guard) {
+		return
+	}
+	// everything speculated after p is discarded with it
+	for i, q := range e.pendingAll {
+		_ = i
+		if q.objBase >= p.objBase && q != p {
+			e.dropPending(q)
+		}
+	}
+	panic(rollback{p})
+}
+
+// effectOn: a write to an object or map with the given allocation id is about to happen.
+func (e *Exec) effectOn(id int) {
+	for len(e.pendingAll) > 0 {
+		var hit *pendingIter
+		for _, p := range e.pendingAll {
+			if id <= p.objBase {
+				hit = p
+				break
+			}
+		}
+		if hit == nil {
+			return
+		}
+		e.resolvePending(hit)
+	}
+}
+
+// effectAll: an externally visible action (assertion, new input, return from the speculating frame).
+func (e *Exec) effectAll() {
+	for len(e.pendingAll) > 0 {
+		e.resolvePending(e.pendingAll[0])
+	}
+}
+
+func sameVal(a, b Value) bool {
+	switch x := a.(type) {
+	case nil:
+		return b == nil
+	case *T:
+		y, ok := b.(*T)
+		return ok && (x == y || x.IsConst() && y.IsConst() && x.S == y.S && x.Val == y.Val)
+	case Str:
+		y, ok := b.(Str)
+		if !ok {
+			return false
+		}
+		if x.Concrete() && y.Concrete() {
+			return x.S == y.S
+		}
+		if x.Op != nil || y.Op != nil {
+			return x.Op == y.Op
+		}
+		if len(x.B) != len(y.B) {
+			return false
+		}
+		for i := range x.B {
+			if x.B[i] != y.B[i] {
+				return false
+			}
+		}
+		return true
+	case Ptr:
+		y, ok := b.(Ptr)
+		return ok && x.Obj == y.Obj && pathEq(x.Path, y.Path) && x.Guard == y.Guard
+	case Slice:
+		y, ok := b.(Slice)
+		return ok && x.Obj == y.Obj && x.Off == y.Off && x.Len == y.Len && x.Cap == y.Cap && x.Abs == y.Abs && x.Guard == y.Guard
+	case MapRef:
+		y, ok := b.(MapRef)
+		return ok && x.M == y.M && x.Guard == y.Guard
+	case *Struct:
+		y, ok := b.(*Struct)
+		if !ok {
+			return false
+		}
+		if x == y {
+			return true
+		}
+		if len(x.F) != len(y.F) {
+			return false
+		}
+		for i := range x.F {
+			if !sameVal(x.F[i], y.F[i]) {
+				return false
+			}
+		}
+		return true
+	case Iface:
+		y, ok := b.(Iface)
+		if !ok {
+			return false
+		}
+		if x.T == nil || y.T == nil {
+			return x.T == nil && y.T == nil
+		}
+		return types.Identical(x.T, y.T) && sameVal(x.V, y.V) && x.Guard == y.Guard
+	case *Closure:
+		y, ok := b.(*Closure)
+		return ok && x == y
+	case Tuple:
+		y, ok := b.(Tuple)
+		if !ok || len(x) != len(y) {
+			return false
+		}
+		for i := range x {
+			if !sameVal(x[i], y[i]) {
+				return false
+			}
+		}
+		return true
+	}
+	return false
+}
+
+// finishPending: the speculative body came back to its Next instruction without any effect.
+// If the loop-carried values (phis of the header) are what they were, presence is unobservable.
+func (e *Exec) finishPending(fr *frame, p *pendingIter) {
+	same := true
+	for _, instr := range p.in.Block().Instrs {
+		phi, ok := instr.(*ssa.Phi)
+		if !ok {
+			continue
+		}
+		i := fr.info.idx[phi]
+		if !sameVal(fr.locals[i], p.locals[i]) {
+			same = false
+			break
+		}
+	}
+	if same {
+		e.dropPending(p)
+		return
+	}
+	e.resolvePending(p)
 }
 
 func (e *Exec) unsupported(format string, a ...interface{}) {
@@ -247,6 +437,7 @@ func updatePath(v Value, path []int, nv Value) Value {
 func (e *Exec) store(p Ptr, nv Value) {
 	p = e.derefCheck(p)
 	e.noteWrite(p.Obj)
+	e.effectOn(p.Obj.ID)
 	if e.sub != nil && p.Obj.ID <= e.sub.objBase {
 		panic(subAbort{"store to outer object"})
 	}
@@ -538,6 +729,44 @@ func (e *Exec) runFrame(fr *frame) {
 		if pe, ok := r.(pathEnd); ok {
 			panic(pe)
 		}
+		if rb, ok := r.(rollback); ok {
+			if rb.p.fr != fr {
+				panic(rb)
+			}
+			copy(fr.locals, rb.p.locals)
+			fr.prev = rb.p.prev
+			fr.block = rb.p.in.Block()
+			fr.defers = fr.defers[:rb.p.ndefers]
+			e.depth = rb.p.depth
+			fr.panicking = false
+			return // callFnBody re-enters runFrame at the loop header; Next then yields the following entry
+		}
+		if _, ok := r.(goPanic); ok && len(e.pendingAll) > 0 {
+			// a panic raised inside a speculative body only exists if the entry does
+			func() {
+				defer func() {
+					if r2 := recover(); r2 != nil {
+						r = r2
+					}
+				}()
+				e.effectAll()
+			}()
+			if rb, ok := r.(rollback); ok {
+				if rb.p.fr != fr {
+					panic(rb)
+				}
+				copy(fr.locals, rb.p.locals)
+				fr.prev = rb.p.prev
+				fr.block = rb.p.in.Block()
+				fr.defers = fr.defers[:rb.p.ndefers]
+				e.depth = rb.p.depth
+				fr.panicking = false
+				return
+			}
+			if pe, ok := r.(pathEnd); ok {
+				panic(pe)
+			}
+		}
 		if _, ok := r.(goPanic); !ok {
 			// engine bug: propagate with the interpreted stack attached
 			eb, isEB := r.(engineBug)
@@ -748,6 +977,9 @@ func (e *Exec) visit(fr *frame, instr ssa.Instruction) int {
 	case *ssa.Slice:
 		fr.set(in, e.sliceOp(fr, in))
 	case *ssa.Return:
+		for len(fr.pendings) > 0 {
+			e.resolvePending(fr.pendings[0])
+		}
 		switch len(in.Results) {
 		case 0:
 		case 1:
@@ -801,7 +1033,7 @@ func (e *Exec) visit(fr *frame, instr ssa.Instruction) int {
 	case *ssa.Range:
 		fr.set(in, e.rangeIter(fr.use(in.X), in.X.Type()))
 	case *ssa.Next:
-		fr.set(in, e.next(fr.get(in.Iter), in))
+		fr.set(in, e.next(fr, fr.get(in.Iter), in))
 	case *ssa.FieldAddr:
 		p := e.derefCheck(fr.get(in.X).(Ptr))
 		fr.set(in, Ptr{Obj: p.Obj, Path: appendPath(p.Path, in.Field)})
